@@ -11,6 +11,16 @@ Oracle (implementation side): a sanitizer report, failed assertion, exit(), time
 history of in-protocol / listed out-of-order calls is a violation with the shrunk history as replay; so is
 a listed out-of-order call that does not return its documented error value or changes the state.
 NOT proved: absence of out-of-bounds accesses in the C code (observed on the generated histories only).
+
+API level (round 2; Model/ProtocolApi.lean, Props/C09Api.lean): the exported surface is regenerated from the current headers
+(tools/gen_apisurface.py -> Generated/ApiSurface.lean + harness/gen_c09_api.h); `C09_api_total` says every exported function is
+executed by a model operation or excluded with a reason.  The harness counts, per executed call, which exported functions it
+reached (generated wrapper macros); the check compares that with the model's `executes` table (printed by the driver), demands that
+every operation kind and every class-(a) function was executed, and prints the op-kind mix / return class per kind / call
+count per function.  New operations: decoder_create, borrowed strings (decoder_hyp / result_json / get_cmn / hyp_iter_hyp kept and
+READ later iff the model still calls them readable), owned strings (decoder_lookup_word), alignment_propagate, config_validate /
+_expand / _log_* / config_parse_json(NULL) / config_set.  Predicted, not echoed (`Seen`, driver level): frame counter arithmetic,
+repeat-stability of hyp / seg, hyp => seg, seg NULL => alignment NULL, add_word / lookup_word outcomes from the history.
 """
 import json, os, re, concurrent.futures as cf
 import vlib
@@ -303,8 +313,11 @@ def gen_history(rng, stats, maxcalls=40, profile=None):
 
     def do_init(force_good=False):
         if not force_good and rng.chance(0.12):
-            g = rng.choice(INIT_BAD)
-            emit("init " + init_args(g), "init-bad")
+            g = rng.choice(INIT_BAD + ["badlog"])
+            if g == "badlog":
+                emit("init " + init_args(rng.choice(INIT_OK)) + " loglevel BOGUS", "init-bad")
+            else:
+                emit("init " + init_args(g), "init-bad")
             return
         g = rng.choice(["jsgf", "fsg"]) if force_good else rng.choice(INIT_OK)
         emit("init " + init_args(g), "init-" + g)
@@ -1240,6 +1253,9 @@ def to_model(call, ret, st):
     if op == "cfgparsenew":
         return f"x cfgparsenew {w[1]} {b(ptr)}"
     if op == "init":
+        if "BOGUS" in w:
+            # an invalid log level: decoder_init fails before anything is loaded (and still consumes the configuration, D82)
+            return f"init {inst} new 0 none 1"
         return f"init {inst} new " + INIT_MAP[w[1]]
     if op == "initcfg":
         return f"init {inst} held {w[1]}"
@@ -1689,6 +1705,10 @@ def truncate_at_oop(binp, ops, stats, max_rounds=4):
     return ops, rc, tr, err, div, classes
 
 
+CLOSED_STATE = ("D=0 it=0,0,0 lr=0 ar=0 ln=0,0 ub=- || D=0 it=0,0,0 lr=0 ar=0 ln=0,0 ub=- || "
+                "cf=0 lm=0 fe=0 ft=0 ml=0 so=0")
+
+
 def new_stats():
     return {"profiles": {}, "calls": {}, "blocks": {}, "classes": {}, "ooo": {}, "returns": {}, "failures": {},
             "calls_executed": 0, "skipped_calls": 0, "kinds": {}, "kind_returns": {}, "kind_fns": {}, "fn_calls": {}}
@@ -1714,13 +1734,28 @@ def account_api(stats, tr, classes):
         if e[1] is not None and not e[1].startswith("skip"):
             for f in getattr(e, "fns", ()):
                 stats["fn_calls"][f] = stats["fn_calls"].get(f, 0) + 1
+    # ledger at exit: after the closing calls (issued by the harness, replayed on the model like every other call) nothing
+    # is held - the state summary, equal for model and implementation, is the empty one
+    if tr and tr[-1][0] == "exit":
+        stats["closed_total"] = stats.get("closed_total", 0) + 1
+        if tr[-1][2] == CLOSED_STATE:
+            stats["closed_empty"] = stats.get("closed_empty", 0) + 1
+        else:
+            stats.setdefault("closed_nonempty", []).append(tr[-1][2])
 
 
 def check(c):
-    c.trusted += ["harness/h_c09.c + tools/props/c09.py (generator, transcript translation, diff, shrinking)",
+    c.trusted += ["harness/h_c09.c + tools/props/c09.py (generator, transcript translation incl. the symbolic word / phone classes of "
+                  "`word_tokens`, diff, shrinking); tools/gen_apisurface.py (header scanner: a prototype it does not recognise is "
+                  "not in the enumeration - it raises when fewer than 40 are found)",
+                  "the white lists keepsHyp / keepsJson / keepsCmn (which calls leave a borrowed buffer alone) are validated by "
+                  "really reading the borrowed strings under ASan, not proved against the C code",
                   "clang ASan/UBSan/LSan as observers of memory errors, undefined behaviour and leaks",
                   "absence of out-of-bounds accesses in the C code is OBSERVED on the generated histories, not proved"]
-    c.assumptions += ["one decoder at a time; handles are used by one thread",
+    c.assumptions += ["at most two decoders at a time; handles are used by one thread",
+                      "a decoder made by decoder_create accepts only decoder_reinit / _free / _retain / _config + config_* / "
+                      "_set_logfile until a decoder_reinit built its acoustic model (every other entry point dereferences d->acmod == NULL): "
+                      "classified out-of-protocol, not generated",
                       "out-of-protocol calls (grammar / dictionary update=1 / alignment text / reinit during an utterance, a "
                       "full_utt block that is not the only block of its utterance, use of an iterator after its source object "
                       "was released) are outside the quantifier and are not generated",
@@ -1838,6 +1873,11 @@ def check(c):
     # (the converse inclusion - every executed call reached only functions `executes` lists for its kind - is checked per
     # call in `compare`; which listed functions a kind did not reach in THIS run depends on the data, e.g. a lattice node
     # with two exits, and is reported, not demanded)
+    c.oblige("every cleanly replayed history ends, after its closing calls, with the empty ledger (no decoder reference, iterator, "
+             "lattice / alignment / configuration / sub-object / transform reference or owned string held, on model and implementation "
+             "alike; LeakSanitizer then sees what is still allocated)", not stats.get("closed_nonempty"),
+             {"histories_closed": stats.get("closed_total", 0), "with_empty_ledger": stats.get("closed_empty", 0),
+              "nonempty": stats.get("closed_nonempty", [])[:3]})
     nontrivial = sum(1 for h in hs if any(l.startswith("proc") for l in h))
     c.cov.update({"evaluations": n + ncorp, "distinct_nontrivial": len(distinct),
                   "rule": "random call histories (6-%d calls) over one decoder; distinct = distinct call lists; every history "
